@@ -22,7 +22,7 @@ short = {
  'C18-b': ('previous zone inserted into the vSwitch-zone set', 're-created fixed-IP pod whose old zone lost its vSwitch'),
  'C19-b': ('failed metadata lookup no longer aborts `initInstanceLimit`', 'stale annotation after resize + metadata hiccup at start'),
  'C20-b': ('`MergeConfigAndUnmarshal` decodes onto a shared pre-allocated value', 'two merges in one process'),
- 'C01-c': ('`IP.Release` guard joined with && instead of ||', 'stale repeated DEL naming an address now held by another pod'),
+ 'C01-c': ('`IP.Release` guard joined with AND instead of OR', 'stale repeated DEL naming an address now held by another pod'),
  'C02-c': ('`buildIPMap` links a binding only when the UID matches', 'same-name re-create / legacy record without UID'),
  'C03-c': ('`multiIP` cancels the pending DEL report under the PodID key', 'DEL then ADD of the same UID before the 3 s flush'),
  'C04-c': ('`PeekAvailable` folded into one loop', 'repeated ADD with idle addresses + map order'),
